@@ -282,6 +282,7 @@ fn special(rng: &mut Rng) -> Vec<String> {
         "---@param a string\n---@param a string\n---@param b\nlocal function f(a) end\nf(1)\n",
         "---@class constructor: Attribute\n---@overload fun(a: string, b: string)\n\n---@[constructor]\nlocal x = 1\n",
         "---@class constructor: Attribute\n---@overload fun(a: string, b: string)\n\n---@[constructor(1, 2, 3)]\nlocal x = 1\n",
+        "---@alias s<T> T extends new a\n",
         "---@type {[K\nlocal t\n",
         "---@type {[string]: V, [K]: \nlocal t\n",
     ];
